@@ -369,6 +369,25 @@ def eval_c16(batches, tier, seed, known, info):
                                           'moved': sorted(which), 'decoy_in_yaml': decoy, 'exit': v['plugin'].get('exit'), 'stderr': v['plugin'].get('stderr', '')[-300:]})
             if 'funcs' not in m:
                 out['tie_breaks'].append({'variant': v['dir'], 'diff': 'model rejects the configuration: ' + json.dumps(m)[:200]})
+        # a blank command-line value is not a value (theorem C16_yaml_stays): the YAML value of that option stays in force
+        for i in range(1 if tier == 'quick' else 3):
+            c = copy.deepcopy(b['case'])
+            blanked = []
+            for jk, ck, kind in DUAL:
+                if c['yaml'].get(jk) and not any(kv['k'] == ck for kv in c['cli']) and (i == 0 or rnd.random() < 0.5):
+                    c['cli'].append({'k': ck, 'v': rnd.choice(['', ' ', '  '])})
+                    blanked.append(ck)
+            if not blanked:
+                continue
+            v = run_variant(info, f'c16blankcli{i}', c)
+            out['evaluations'] += 1
+            out['distinct'].append(v['dir'])
+            m, mb = (v['model'] or [{}])[0], (base['model'] or [{}])[0]
+            if m != mb:
+                out['tie_breaks'].append({'variant': v['dir'], 'diff': 'model: blank command-line values change the result: ' + json.dumps(m)[:200]})
+            elif v['plugin'].get('contentSha') != want:
+                out['violations'].append({'kind': 'a blank command-line value replaced the YAML value of the option', 'batch': b['dir'], 'variant': v['dir'],
+                                          'blank_parameters': blanked, 'exit': v['plugin'].get('exit'), 'stderr': v['plugin'].get('stderr', '')[-300:]})
         # a configuration that uses the dual options only, delivered (a) by the YAML file, (b) entirely by the command line next to a
         # `config` file that holds no YAML document at all (empty / comments only / blank lines): same result
         dual_only = copy.deepcopy(b['case'])
@@ -507,8 +526,22 @@ def eval_c12(batches, tier, seed, known, info):
         base = run_variant(info, 'c12base', b['case'])
         if not base['static']:
             continue
-        roots = [f[len('GenSchema'):] for f in base['static']['funcs'] if f.startswith('GenSchema')]
+        # the selection is what the configuration says (not what the full run happened to emit); types the model reports as
+        # failing to build are legitimately skipped (C18)
+        mfailed = set(model_emit(base).get('failed') or [])
+        roots = [t for t in roots_of(b['case']) if t not in mfailed]
+        out['evaluations'] += 1
+        want0, got0 = set(f for t in roots for f in funcs_of_type(t)), set(base['static']['funcs'])
+        if want0 != got0:
+            out['violations'].append({'kind': 'emitted functions are not exactly those of the selected types', 'variant': base['dir'],
+                                      'missing': sorted(want0 - got0), 'extra': sorted(got0 - want0)})
         variants = []
+        if len(roots) >= 2:
+            # directed: the same selection with the messages declared in the opposite order (a selected type that is also a field
+            # type of another selected type is declared before / after its user)
+            c = copy.deepcopy(b['case'])
+            c['request']['file']['messages'].reverse()
+            variants.append(('reversed-decl', c, roots))
         for t in roots[:3]:
             c = copy.deepcopy(b['case'])
             c['yaml']['types'] = [t]
@@ -542,6 +575,8 @@ def eval_c12(batches, tier, seed, known, info):
                 out['violations'].append({'kind': 'emitted functions are not exactly those of the selected types', 'variant': v['dir'],
                                           'missing': sorted(want - got), 'extra': sorted(got - want)})
             for fn in sorted(want & got):
+                if name == 'reversed-decl' and not (b['case']['yaml'].get('sort') and not any(kv['k'] == 'sort' for kv in b['case']['cli'])):
+                    break       # the text may follow the declaration order unless sort is on (C15)
                 if st['funcSha'].get(fn) != base['static']['funcSha'].get(fn):
                     out['violations'].append({'kind': 'function text depends on the rest of the selection / request', 'variant': v['dir'], 'func': fn})
                     break
@@ -693,12 +728,20 @@ def eval_c18(batches, tier, seed, known, info):
 # ----------------------------------------------------------------------------------------------------------
 # C15
 
-def permuted(case, rnd):
+def permuted(case, rnd, reverse=False):
     c = copy.deepcopy(case)
     f = c['request']['file']
-    rnd.shuffle(f['messages'])
+    if reverse:
+        # directed: every declaration list in the opposite order (what was declared before an embedded field is now after it,
+        # a message used by another one is now declared after / before its user)
+        f['messages'].reverse()
+    else:
+        rnd.shuffle(f['messages'])
     for m in f['messages']:
-        rnd.shuffle(m['fields'])
+        if reverse:
+            m['fields'].reverse()
+        else:
+            rnd.shuffle(m['fields'])
         # the order of the oneof declarations follows the order of the oneof blocks in the proto source
         n = len(m.get('oneofs') or [])
         if n > 1:
@@ -760,7 +803,7 @@ def eval_c15(batches, tier, seed, known, info):
             if not base['static']:
                 continue
             for k in range(2 if tier == 'quick' else 5):
-                v = run_variant(info, f'c15perm{int(sort)}_{k}', permuted(c0, rnd))
+                v = run_variant(info, f'c15perm{int(sort)}_{k}', permuted(c0, rnd, reverse=(k == 0)))
                 out['evaluations'] += 1
                 out['distinct'].append(v['dir'])
                 if not v['static']:
